@@ -1,4 +1,5 @@
-(* driver_c03.ml — glue for the model of mcb_sva_signed_tbb (group "c03"). Trusted for the correspondence only.
+(* driver_c03.ml — glue for the models of mcb_sva_signed_tbb and of the TBB lookup of the tree-based variants (group "c03").
+   Trusted for the correspondence only.
      signedtbb : graph, roots list, eord list (rank per edge id), nbits, bitstring|-, push permutation list (may be empty)
                  -> RET w N k CYC (len ids)* POS <schedule bits consumed>
      sched     : nbits, bitstring|-, pos, len
@@ -45,4 +46,79 @@ let sched t b =
   pr_str b " CHUNKS"; List.iter (fun (lo, l) -> pr_str b " "; pr_nat b lo; pr_str b " "; pr_nat b l) (chunks_of tr O);
   pr_str b " ORDER"; pr_nats b (exec_order tr O)
 
-let () = main [ ("signedtbb", signedtbb); ("sched", sched) ]
+(* ---- the TBB lookup of the tree-based variants (ParTreesModel) ----------------------------------------------------------
+     treesrun    : <fvs|iso|horton> <wmax> graph, roots list, picks list, arr list, nbits, bitstring|-
+                   -> RET w N k CYC (len ids)* POS <bits consumed>            (mcb_sva_trees_tbb_Z)
+     treeslookup : <fvs|iso|horton> <wmax> graph, picks list, arr list, nbits, bitstring|-, ncalls, (k ids)*ncalls
+                   -> CAND n (root edge w)* CALLS m (R found w|MAX k ids P pos)*   (pt_lookup_call_Z: one lookup object)
+     treesbuild  : <fvs|iso|horton> graph, picks list, signed list, nq, (i use lim)*nq
+                   -> CAND n (root edge w)* Q nq (i use lim found w k ids)*         (pt_build_call_Z: direct builder calls) *)
+let builder_of = function
+  | "fvs" -> TbFvs | "iso" -> TbIso | "horton" -> TbHorton | s -> failwith ("unknown builder " ^ s)
+
+let pr_cands b (trees : z sp_tree list) (cs : z cand list) =
+  let ta = Array.of_list trees in
+  pr_str b "CAND "; pr_int b (List.length cs);
+  List.iter (fun c ->
+    pr_str b " "; pr_nat b ta.(int_of_nat c.c_tree).st_src;
+    pr_str b " "; pr_nat b c.c_edge; pr_str b " "; pr_z b c.c_weight) cs
+
+let err_name = function TrNoNode -> "MODEL-ERROR nonode" | TrRange -> "MODEL-ERROR range" | TrFuel -> "MODEL-ERROR fuel" | TrOk _ -> "ok"
+
+let treesrun t b =
+  let bld = builder_of (next t) in
+  let wmax = next_z t in
+  let (n, es, ws) = next_graph_raw t in
+  let roots = next_list t next_nat in
+  let picks = next_list t next_nat in
+  let arr = next_list t next_nat in
+  let bits = next_bits t in
+  match mcb_sva_trees_tbb_Z wmax bld { nv = nat_of_int n; ge = es } ws roots picks arr bits with
+  | (PtRun r, pos) -> pr_sva b r; pr_str b " POS "; pr_nat b pos
+  | (PtNoCollection, _) -> pr_str b "MODEL-NOCOLLECTION"
+  | (PtBadArrangement, _) -> pr_str b "MODEL-BADARRANGEMENT"
+
+let treeslookup t b =
+  let bld = builder_of (next t) in
+  let wmax = next_z t in
+  let (n, es, ws) = next_graph_raw t in
+  let picks = next_list t next_nat in
+  let arr = next_list t next_nat in
+  let bits = next_bits t in
+  let sgs = next_list t (fun t -> next_list t next_nat) in
+  match pt_lookup_call_Z wmax bld { nv = nat_of_int n; ge = es } ws picks arr sgs bits with
+  | PtCallNoCollection -> pr_str b "MODEL-NOCOLLECTION"
+  | PtCallBadArrangement -> pr_str b "MODEL-BADARRANGEMENT"
+  | PtCall (sorted, trees, rs) ->
+      pr_cands b trees sorted;
+      pr_str b " CALLS "; pr_int b (List.length rs);
+      List.iter (fun (r, pos) ->
+        (match r with
+         | TrOk ((c, w), found) ->
+             pr_str b (if found then " R 1 " else " R 0 ");
+             if w = wmax then pr_str b "MAX" else pr_z b w;
+             pr_str b " "; pr_int b (List.length c); pr_nats b c
+         | e -> pr_str b " "; pr_str b (err_name e));
+        pr_str b " P "; pr_nat b pos) rs
+
+let treesbuild t b =
+  let bld = builder_of (next t) in
+  let (n, es, ws) = next_graph_raw t in
+  let picks = next_list t next_nat in
+  let sg = next_list t next_nat in
+  let qs = next_list t (fun t -> let i = next_nat t in let u = next_int t <> 0 in let l = next_z t in (i, (u, l))) in
+  match pt_build_call_Z bld { nv = nat_of_int n; ge = es } ws picks sg qs with
+  | PtBuildNoCollection -> pr_str b "MODEL-NOCOLLECTION"
+  | PtBuildNoParities -> pr_str b "MODEL-NOPARITIES"
+  | PtBuild (cands, trees, rs) ->
+      pr_cands b trees cands;
+      pr_str b " Q "; pr_int b (List.length rs);
+      List.iter2 (fun (i, (u, l)) r ->
+        pr_str b " "; pr_nat b i; pr_str b (if u then " 1 " else " 0 "); pr_z b l;
+        (match r with
+         | TrOk (TcFound (c, w)) -> pr_str b " 1 "; pr_z b w; pr_str b " "; pr_int b (List.length c); pr_nats b c
+         | TrOk TcNot -> pr_str b " 0 0 0"
+         | e -> pr_str b " "; pr_str b (err_name e))) qs rs
+
+let () = main [ ("signedtbb", signedtbb); ("sched", sched);
+                ("treesrun", treesrun); ("treeslookup", treeslookup); ("treesbuild", treesbuild) ]
